@@ -50,6 +50,8 @@ def module_attr(I, v: VModule, attr):
 
 def call_external(I, name, args, kwargs, node, frame):
     run = I.run
+    if name.split(".")[0] in ("hashlib", "uuid", "json", "re", "ast", "random", "statistics") or name in ("math.exp", "math.log", "math.log2", "math.log10", "math.tanh", "math.sin", "math.cos"):
+        run.externals = getattr(run, "externals", 0) + 1      # modelled by an assumed contract, not by its value: such a path is not cross-checked against CPython
     if name in ("time.time", "time.monotonic", "time.perf_counter"):
         v = run.now(None)
         return VReal(v.t)
@@ -170,6 +172,7 @@ def call_builtin(I, name, args, kwargs, node, frame):
                 # length of a symbolic string as an uninterpreted non-negative integer (z3's sequence solver cannot build 10^4-character witnesses)
                 n_ = _fn("slen", z3.StringSort(), z3.IntSort())(v.t)
                 run.assume(n_ >= 0)
+                run.externals = getattr(run, "externals", 0) + 1     # not cross-checked against CPython (the model string need not have that length)
                 return VInt(n_)
             return VInt(z3.Length(v.t))
         if isinstance(v, VTuple):
